@@ -2,6 +2,7 @@
    Pinned statements only; proofs are in Proofs/EditorP.v. *)
 From ToughV Require Export Model.Base Model.Editor.
 From ToughV Require Export Proofs.EditorP.
+From ToughV Require Export Model.Json Model.CJson Model.Schema Proofs.CJsonP Proofs.CJsonInjP Proofs.SchemaP.
 
 Theorem C17_preserved : forall v added,
   let v' := update true v added in
@@ -18,3 +19,20 @@ Theorem C17_snapshot_extra_refuted :
   exists v added, rv_snapshot_extra (update false v added) <> rv_snapshot_extra v.
 Proof. exact update_original_refuted. Qed.
 Print Assumptions C17_snapshot_extra_refuted.
+
+(* What "passing through" means at the level of documents: from_repo parses every role's file into the typed
+   representation and sign serialises it again. For a document every level of which is covered (known members in
+   their expected shape, or a catch-all for unknown ones; Model/Schema.v, the subject of C12) the retained content
+   has the canonical form of the document itself: no member - known, unknown top-level member, custom data of a
+   target - is dropped or altered by parse-and-reserialise, in any of the four role types. The only object levels
+   without a catch-all are [delegations] and a delegated-role entry (known finding F7 of C12). *)
+Theorem C17_reserialise_lossless : forall sch j, well_covered sch j = true ->
+  exists r, project sch j = Some r /\ canon_spec (fun s => s) r = canon_spec (fun s => s) j.
+Proof. exact lossless. Qed.
+Print Assumptions C17_reserialise_lossless.
+
+Theorem C17_lossy_levels :
+  lossy_levels root_schema = [] /\ lossy_levels timestamp_schema = [] /\ lossy_levels snapshot_schema = []
+  /\ lossy_levels targets_schema = [[n_delegations]; [n_delegations; n_roles; n_star]].
+Proof. exact catch_all_levels. Qed.
+Print Assumptions C17_lossy_levels.
